@@ -2,6 +2,8 @@
 
 import hashlib
 import os
+import pickle
+import pickletools
 import sqlite3
 
 from .. import common, gen, observe, probe
@@ -31,11 +33,17 @@ def plan(tier):
     return {'nshards': 16 if tier == 'quick' else 48, 'timeout': 900 if tier == 'quick' else 3600}
 
 
+TWIN = pickletools.optimize(pickle.dumps(('user', 1), protocol=pickle.HIGHEST_PROTOCOL))
+
+
 def populate(c):
     items = {
         'inline': 'small', 'int': 7, 'bin_file': b'B' * (T + 30), 'bin_file2': b'C' * (T + 90),
         'text_file': 'texte-é' * 20, 'text_file2': 'plain ascii text ' * 10, 'pickle_file': ['P' * (T + 50), 2, None],
         'pickle_file2': {'k': 'Q' * (T + 10)}, 'tuple_inline': (1, 2),
+        # keys of other types; a composite key and the bytes key equal to its stored form share the key column (they
+        # differ in the raw flag only) - both hold value files, so damage to one must not be repaired on the other
+        ('user', 1): b'U' * (T + 40), TWIN: b'T' * (T + 60), 7: 'int-key-file ' * 12, b'bytes-key': ['L' * (T + 5)], None: 'n',
     }
     for i, (k, v) in enumerate(items.items()):
         c.set(k, v, tag='t%d' % (i % 2), expire=1e6 if i % 3 == 0 else None)
